@@ -17,6 +17,7 @@ VALUES = {
     "Date": [("2020-01-01", "1999-12-31"), ("0001-01-01", "9999-12-31")],
     "DateTime": [("2020-01-01T10:00:00Z", "1999-12-31T23:59:59Z")],
     "GUID": [("01234567-89ab-cdef-0123-456789abcdef", "aaaaaaaa-bbbb-cccc-dddd-eeeeeeeeeeee")],
+    "Duration": [("P7D", "PT1H"), ("-P1DT2H3M4.5S", "P3D"), ("PT0.000001S", "P400D")],
 }
 
 def templates():
@@ -47,14 +48,19 @@ def templates():
         # a Boolean literal BEFORE (and after) a numeric literal in one filter: values that compare equal across kinds (true / 1 / 1.0, false / 0 / 0.0) are different literals
         ("b1 eq true and i1 eq {i}", "Integer"), ("b1 eq false or i1 in ({i}, 5, 9)", "Integer"), ("b1 ne true and f1 lt {f}", "Float"), ("contains(s1, 'a') eq true and i1 add {i} eq 4", "Integer"),
         ("i1 eq {i} and b1 eq true", "Integer"), ("b1 eq false and f1 eq {f} and i1 eq 0", "Float"), ("i1 eq 1 and i2 eq {i}", "Integer"), ("f1 eq 1.0 or i1 eq {i}", "Integer"),
+        # durations next to a column, a call, a literal, a path-free arithmetic chain (a value the database computes with is still a value of the filter)
+        ("dt1 gt now() sub {du}", "Duration"), ("dt1 add {du} gt 2020-01-01T00:00:00Z", "Duration"), ("dt1 sub {du} lt now()", "Duration"), ("2019-01-01T00:00:00Z add {du} lt dt1", "Duration"),
+        ("d1 add {du} gt 2020-01-01", "Duration"), ("dt1 gt now() sub {du} and i1 eq 1", "Duration"), ("not (dt1 add {du} le now())", "Duration"), ("now() sub {du} lt dt1 sub {du}", "Duration"),
         ("length(trim({s})) eq 5", "String"), ("concat(trim({s}), 'x') eq s1", "String"), ("tolower(trim({s})) eq s1", "String"), ("indexof(s1, toupper({s})) eq 1", "String"),
         ("contains(s1, trim({s}))", "String"), ("substring(concat({s}, s1), 1) eq s2", "String"), ("length(concat(tolower({s}), toupper({s}))) gt i1", "String"),
         ("i1 eq year({d})", "Date"), ("i1 eq month({dt}) or i1 eq hour({dt})", "DateTime"), ("f1 gt floor({i})", "Integer"), ("i1 add length({s}) gt {i}", "String"),
     ]
 
-HOLE = {"String": "{s}", "Integer": "{i}", "Float": "{f}", "Date": "{d}", "DateTime": "{dt}", "GUID": "{g}"}
+HOLE = {"String": "{s}", "Integer": "{i}", "Float": "{f}", "Date": "{d}", "DateTime": "{dt}", "GUID": "{g}", "Duration": "{du}"}
 
 def spell(kind, v):
+    if kind == "Duration":
+        return "duration'" + v + "'"
     return "'" + v.replace("'", "''") + "'" if kind == "String" else v
 
 def big_list(kind, v, n):
@@ -97,6 +103,9 @@ def expected_param(kind, text):
     node = getattr(ast, kind)(text)
     if kind == "GUID":
         return {str(node.py_val), text, node.py_val.hex}      # Django binds the UUID (hex on SQLite), SQLAlchemy the text
+    if kind == "Duration":
+        td = node.py_val      # SQLAlchemy binds the timedelta, Django its microseconds
+        return {str(td), str((td.days * 86400 + td.seconds) * 1000000 + td.microseconds)}
     return {canon_value(node.py_val)}
 
 BACKENDS = [("django", lambda t: oc.dj_shorthand_sql(t)), ("sa-orm", lambda t: oc.sa_shorthand_sql(t, "orm")),
